@@ -8,6 +8,7 @@
 -/
 import Drx.Bitd
 import Drx.Gen.SharedState
+import Drx.Gen.DecoderState
 import DrxProofs.Bitd
 namespace Drx.C13
 open Drx Drx.Bitd
@@ -141,5 +142,18 @@ theorem decoders_registry :
        (24, "Decoder24b", 24, 0), (32, "Decoder24b", 24, 0)] ∧
     Gen.BitdTables.decoders = Gen.BitdTables.decoderInfo.map (fun p => (p.1, p.2.1)) ∧
     Gen.BitdTables.aliased = [] := by decide
+
+/-! ### state that outlives a call, over EVERY module of the decoder packages (regenerated from the source on every run) -/
+
+/-- no function or method of the bitmap / sound / palette / score / cast / text / index / container packages contains a statement
+    that can change state living longer than one call: no `global` / `nonlocal`, no assignment, deletion or mutating call whose base
+    is a module-level name, a class or `cls`, no `setattr` / `globals()` / `__dict__`, no cache decorator, and no parameter default
+    that is anything but an immutable literal or a named constant (a default is ONE object shared by all calls that omit the
+    argument). State written through `self` on the registered decoder objects is the subject of the theorems above. -/
+theorem no_writes_to_decoder_module_state : Gen.DecoderState.writes = [] := by decide
+
+/-- every module-level or class-level container of those packages is a list or dict display written in the source -/
+theorem decoder_module_state_is_tables :
+    Gen.DecoderState.holders.all (fun h => h.2.2.2 == "List" || h.2.2.2 == "Dict") = true := by decide
 
 end Drx.C13
